@@ -308,10 +308,11 @@ pub fn git_applicable(_p: &Parsed) -> bool {
 // ---------------------------------------------------------------------------------------------
 // known deviations (findings.txt), each decided per query from the lines that can be involved
 // ---------------------------------------------------------------------------------------------
-/// the text of the line an answer points to (without LF; a BOM stays in line 1, which is harmless for the predicates)
+/// the text of the line an answer points to (without LF, after the UTF-8 BOM)
 fn line_of<'a>(p: &'a Parsed, a: &Answer) -> Option<&'a [u8]> {
     let (src, line, _) = a.as_ref()?;
     let content = lookup(p, src)?;
+    let content = content.strip_prefix(&[0xef, 0xbb, 0xbf]).unwrap_or(content);
     content.split(|b| *b == b'\n').nth(line - 1)
 }
 
